@@ -94,6 +94,7 @@ type regState struct {
 	sim      *simkit.Region // truth on the store
 	view     *simkit.Region // what pd heard at the last heartbeat (nil = never)
 	viewLen  int            // ledger length at that heartbeat
+	prevView *simkit.Region // the view when the current event began (an event may heartbeat several regions one after the other)
 	ledger   []entry
 	inbox    []inMsg
 	children []*regState // split off, not yet heartbeated
@@ -371,6 +372,9 @@ func sortedKeys(m map[string]bool) []string {
 func (w *world) event(op Op) error {
 	rs := w.regs[mod(op.R, len(w.regs))]
 	ev := &evCtx{kind: op.Kind, rs: rs}
+	for _, r := range w.regs {
+		r.prevView = r.view
+	}
 	var err error
 	switch op.Kind {
 	case "build":
@@ -416,6 +420,11 @@ func (w *world) event(op Op) error {
 	return w.postJudge(ev)
 }
 
+// unsafePlansKnown: while C08's finding about plans that add a peer on a still occupied store is listed as
+// known, operators whose plan a faithful store cannot execute are not judged for staleness. Once it is fixed
+// nothing is exempt: a plan that gets its operator cancelled (or stuck) through its own steps is reported.
+func unsafePlansKnown() bool { return vkit.Known("C08/nojoint-inplace-demote") }
+
 // ---------------------------------------------------------------- build / add / remove
 
 func (w *world) evBuild(rs *regState, q *BuildReq) error {
@@ -460,7 +469,7 @@ func (w *world) evBuild(rs *regState, q *BuildReq) error {
 		// subject (two known findings there); C09 does not judge staleness of such an operator
 		dry := r.view.Clone()
 		for _, st := range o.steps {
-			if e := dry.ApplyStep(st); e != nil {
+			if e := dry.ApplyStep(st); e != nil && unsafePlansKnown() {
 				o.unsound = true
 				w.class("operator:unsafe-plan")
 				break
@@ -717,7 +726,7 @@ func (w *world) evExec(ev *evCtx, rs *regState, nohb bool, race int) {
 		}
 		if err != nil {
 			w.class("store:command-refused")
-			if im.op != nil && !im.op.foreignSince() {
+			if im.op != nil && !im.op.foreignSince() && unsafePlansKnown() {
 				// a faithful store refuses a command of an operator although nothing else happened:
 				// the plan is unsafe (C08's subject); nothing further is judged about this operator
 				im.op.unsound = true
@@ -1264,6 +1273,14 @@ func (w *world) collect(ev *evCtx) error {
 			return w.errf("store %d received a command for region %d which pd never heard of", d.store, m.GetRegionId())
 		}
 		v := rs.view
+		if pv := rs.prevView; pv != nil && pv != v {
+			// created before this region's own heartbeat of the same event (another region's dispatch promoted a
+			// waiting operator of this region): judged against what pd knew at that moment
+			if e := m.GetRegionEpoch(); (e.GetVersion() != v.Version || e.GetConfVer() != v.ConfVer || m.GetTargetPeer().GetId() != v.Leader) &&
+				e.GetVersion() == pv.Version && e.GetConfVer() == pv.ConfVer && m.GetTargetPeer().GetId() == pv.Leader {
+				v = pv
+			}
+		}
 		if e := m.GetRegionEpoch(); e.GetVersion() != v.Version || e.GetConfVer() != v.ConfVer {
 			return w.errf("command for region %d carries epoch v%dc%d, the region's current epoch (last heartbeat) is %s", v.ID, e.GetVersion(), e.GetConfVer(), v)
 		}
@@ -1286,7 +1303,7 @@ func (w *world) collect(ev *evCtx) error {
 		// later dispatch of the same event (promotion of a waiting operator). It is the sender when the command
 		// is the command of its current step and not of the current operator's.
 		for _, p := range w.ops {
-			if p.rs == rs && p.running && p != o && p.nextSeen(v) < len(p.steps) && matchStep(m, p.steps[p.nextSeen(v)]) &&
+			if p.rs == rs && (p.running || (p.last == operator.CREATED && p.op.HasStarted())) && p != o && p.nextSeen(v) < len(p.steps) && matchStep(m, p.steps[p.nextSeen(v)]) &&
 				(o == nil || o.nextSeen(v) >= len(o.steps) || !matchStep(m, o.steps[o.nextSeen(v)])) {
 				o = p
 				w.class("command:of-operator-replaced-later-in-the-event")
@@ -1420,7 +1437,7 @@ func (w *world) sweep(ev *evCtx) error {
 		o := ch.o
 		if ch.from == operator.CREATED && o.op.HasStarted() {
 			// admission: only with the epoch pd knows for the region
-			if w.mismatch(o) {
+			if pv := o.rs.prevView; w.mismatch(o) && !(pv != nil && pv != o.rs.view && epochOf(pv) == o.ep && w.mc.GetRegion(o.rs.sim.ID) != nil) {
 				return w.errf("%s was started although pd's view of the region is %s", o, viewStr(o.rs))
 			}
 			w.class("operator:started")
